@@ -131,7 +131,7 @@ REPEAT = r'''
 def repeat(state, repetitions_count: uint, body: CodeBlock) -> bytes:
     compiler = state["compiler"]
     addr = state["emit_address"]
-    result = b""
+    chunks = []
     for _ in range(repetitions_count):
         # A program cannot hold more than 64 KiB, so this many repetitions (of
         # all '.repeat' blocks together) cannot be meant: stop instead of
@@ -148,6 +148,13 @@ def repeat(state, repetitions_count: uint, body: CodeBlock) -> bytes:
             addr += chunk.length()
         else:
             addr += len(chunk)
+        chunks.append(chunk)
+    if not any(isinstance(chunk, BaseDeferred) for chunk in chunks):
+        # Joined at once: adding the chunks up one by one copies the result so
+        # far every time, which is quadratic in the number of repetitions
+        return b"".join(chunks)
+    result = b""
+    for chunk in chunks:
         result += chunk
     return result
 '''
